@@ -231,8 +231,18 @@ def _md_nested(r, script):
             b.open_comment(form)
             b.raw(" " + r.choice(["", "note ", "é "]))
             b.tag("start", src, attrs)
-            b.raw(" ")
+            if kind != "top" and r.random() < 0.4:
+                # the comment goes on for more lines after the tag, and the content may start on the comment's last line
+                for _ in range(r.randint(1, 2)):
+                    b.nl()
+                    b.raw(cont + "outro")
+                b.nl()
+                b.raw(cont)
+            else:
+                b.raw(" ")
             b.close_comment()
+            if kind in ("list", "list2") and r.random() < 0.5:
+                b.raw(" tail %d" % n)
             b.nl()
             b.raw(cont + "text %d" % n)
             b.nl()
